@@ -222,6 +222,14 @@ class CollectReader(GateReader):
                 return base.args[0]
             if base.cls == "Derivative" and attr == "variable_count":
                 return list(base.args[1:])
+            if base.cls == "Derivative" and attr == "variables":
+                # SymPy expands the counts - and cannot for a symbolic one ("Cannot give expansion for symbolic count")
+                out = []
+                for v_, c_ in base.args[1:]:
+                    if not isinstance(c_, int):
+                        raise Raised("TypeError", getattr(n, "lineno", 0))
+                    out += [v_] * c_
+                return out
         got = self.leaves.attr(base, attr)
         if got is not Leaves.ABSENT:
             return got
@@ -489,6 +497,16 @@ def canon(t):
         return minmax_term(t.val, args)
     if t.op == "app" and t.val == "diff" and args and args[0].op == "app" and args[0].val == "diff":
         return canon(app("diff", *args[0].args, *args[1:]))  # repeated differentiation is one derivative with all its variables
+    if t.op == "app" and t.val == "diff" and args:
+        # SymPy keeps the variables as (variable, count) pairs, neighbours that are the same variable merged: Derivative(f, t, t) is Derivative(f, (t, 2))
+        vs: list = []
+        for a in args[1:]:
+            v_, c_ = (a.args[0], a.args[1]) if (a.op == "app" and a.val == "pair" and len(a.args) == 2) else (a, num(1))
+            if vs and vs[-1][0] == v_ and vs[-1][1].op == "num" and c_.op == "num":
+                vs[-1] = (v_, T("num", (), vs[-1][1].val + c_.val))
+            else:
+                vs.append((v_, c_))
+        return T("app", (args[0], *[app("pair", v_, c_) for v_, c_ in vs]), "diff")
     return T(t.op, tuple(args), t.val)
 
 
@@ -589,6 +607,8 @@ def spec_expression(tree, leaves: Leaves):
             vd = spec_expression(v_, leaves)
             if d is None or vd is None:
                 raise AnalysisError("spec: derivative of / by a zero")
+            if not isinstance(n_, int):
+                return ("opaque-dim", )  # a derivative of symbolic order: dimension of the variable to a symbolic power
             for _ in range(n_):
                 d = d.mul(vd, -1)
         return d
